@@ -575,14 +575,27 @@ Definition limiter_layer_gen (stale : bool) (pos inst : nat) (maxwait : Z) (inne
 
 Definition limiter_layer := limiter_layer_gen false.
 
-(* bulkhead (sequential: no other execution releases a permit while this one waits) *)
+(* the error a waiting policy reports when its wait is cut short by the cancellation of the execution: the error of the
+   cancellation result (ErrExecutionCanceled for an async Cancel, ErrExceeded for a Timeout), else the context's error *)
+Definition cancel_error (w : world) (c : nat) : err :=
+  match is_canceled w c with
+  | Some cr => match pr_err cr with
+               | Some e => e
+               | None => match copy_err w c with Some e => e | None => EOther end
+               end
+  | None => EOther
+  end.
+
+(* bulkhead (sequential: no other execution releases a permit while this one waits).  A cancelled execution is turned away
+   with the cancellation's error (bulkheadexecutor.go PreExecute, since the fix: commit for finding F16; before it, with
+   the context's error: an async Cancel() during the wait surfaced as context.Canceled) *)
 Definition bulkhead_layer (pos inst : nat) (maxwait : Z) (inner : layer) : layer := fun c w =>
   let '(cap, held) := nth inst (w_bulkheads w) (0, 0) in
   let setheld (w : world) (h : Z) :=
     set_insts w (w_breakers w) (w_limiters w) (upd inst (fun p => (fst p, h)) (w_bulkheads w)) (w_caches w) in
   let full (w : world) := (failure_result EFull, stamp (emit w KFull pos (snapshot w c) 0) c) in
   match copy_err w c with
-  | Some e => (failure_result e, w)
+  | Some _ => (failure_result (cancel_error w c), w)
   | None =>
       if held <? cap then
         let '(r, w2) := inner c (setheld w (held + 1)) in
@@ -591,7 +604,7 @@ Definition bulkhead_layer (pos inst : nat) (maxwait : Z) (inner : layer) : layer
       else if maxwait =? 0 then full w
       else
         let '(i, w1) := wait w maxwait (Some c) in
-        if i then (failure_result (match copy_err w1 c with Some e => e | None => EOther end), w1)
+        if i then (failure_result (cancel_error w1 c), w1)
         else full w1
   end.
 
